@@ -30,13 +30,18 @@ TraceInit == Init /\ l = 1 /\ TLCSet(1, 1)
 
 Ev == TraceLog[l]
 
-\* a step of GluonLocks: silent, or labelled with exactly the next event
+\* A step of GluonLocks: labelled with exactly the next event, or silent.  Without clients and connector (OpenEnv) a
+\* silent step only ever enables a later step of the SAME goroutine, so silent steps are tried for the goroutine of the
+\* next event only (the accept step of srv carries the label of the session goroutine it starts).
+Cand == IF l <= Len(TraceLog) THEN {<<Ev.g, Ev.id>>} \cup (IF Ev.op = "go.start" THEN {Srv} ELSE {}) ELSE {}
+Follows ==
+  IF lab' = Silent THEN l' = l
+  ELSE /\ l <= Len(TraceLog) /\ Ev.op # "touch"
+       /\ lab' = <<Ev.g, Ev.id, Ev.op, Ev.obj>>
+       /\ l' = l + 1
 TStep ==
-  /\ ((\E g \in G : Step(g)) \/ Env)
-  /\ IF lab' = Silent THEN l' = l
-     ELSE /\ l <= Len(TraceLog) /\ Ev.op # "touch"
-          /\ lab' = <<Ev.g, Ev.id, Ev.op, Ev.obj>>
-          /\ l' = l + 1
+  \/ \E g \in Cand \cap G : Step(g) /\ Follows
+  \/ Env /\ lab' # Silent /\ Follows
 
 \* the snapshot of the state of session Ev.obj was accessed by goroutine <<Ev.g, Ev.id>>
 TTouch ==
